@@ -7,7 +7,7 @@ TRUSTED = ['hand model coq/Text/Emit.v (exact text equality with the implementat
            'coq/Text/Dec64.v: decimal literal -> nearest binary64 in exact Z arithmetic (what OpenSCAD\'s strtod does)']
 ASSUMPTIONS = ['u64 parameters above 2^53 cannot be represented by OpenSCAD numbers at all; they are compared after rounding to binary64']
 def run(ctx):
-    n = 500 if ctx['tier'] == 'quick' else 8000
+    n = (500 if ctx['tier'] == 'quick' else 8000) * ctx.get('boost', 1)
     return textprop.run_text('C02', n, ctx['seed'], c01=False, c02=True)
 def match_known(f, known): return vlib.match_known_default(f, known)
 def replay(path): print(json.dumps(json.load(open(path)), indent=1)); return 0
